@@ -23,6 +23,7 @@ Definition run_statements (s : str) (sl sc : nat) (nodes : list (nat * nat * nat
   let ns := mk_nodes 0 nodes in
   show_obj [("wf", show_bool (wf_nodes t ns));
             ("ends_ok", show_bool (ends_ok t ns (map (fun e => mkPos (fst e) (snd e)) ends)));
+            ("lead_ok", show_bool (leading_ok t ns));
             ("endpos", show_pos (endpos t));
             ("pieces", show_option (show_list show_piece) (statements ns t))].
 
